@@ -468,7 +468,9 @@ impl BitMachine {
 
             Ok(value)
         } else {
-            Ok(Value::unit())
+            // A zero-width target type is a (possibly nested) product of units, which has
+            // exactly one value. Return it at the target type, not as a bare unit.
+            Ok(Value::zero(&program.arrow().target))
         }
     }
 
